@@ -357,3 +357,7 @@ def run(ctx):
     r_execute(ctx)
     r_hint_accessor(ctx)
     r5_status_mapping(ctx)
+
+
+from .selftest import for_families as _ff  # noqa: E402
+selftest = _ff(['slice', 'gate'])
